@@ -222,10 +222,7 @@ func H_DatabaseHistory() {
 
 // H_DatabaseTables: per-controller tables, exclusivity and the exported graph after a history.
 func H_DatabaseTables() {
-	steps := 2
-	if verif.Tier() == "thorough" {
-		steps = 3
-	}
+	steps := 2 // both tiers (3 calls: 1.6 million paths, 80 min); the thorough tier adds the Some("") id form
 	db, m, names := history(steps)
 	checkTables(db, m, names)
 	g, err := db.Export()
